@@ -2,7 +2,7 @@
    [L r s]: the string s belongs to the language of r (inductive definition; the order of
    alternatives plays no role).  [matches] is the derivative-based decision procedure the
    implementation is compared with on every run. *)
-Require Import Regex RegexProofs.
+Require Import Regex RegexProofs RegexBT RegexBTProofs.
 From Coq Require Import List Arith Bool.
 Import ListNotations.
 
@@ -10,6 +10,33 @@ Import ListNotations.
 Theorem C17_oracle_decides_language : forall r s, matches r s = true <-> L r s.
 Proof. exact matches_spec. Qed.
 Print Assumptions C17_oracle_decides_language.
+
+(* the engine: a backtracking matcher started at the beginning of the path (alternatives in the order written,
+   greedy repetition, first success wins) on the pattern followed by the end-of-text anchor, then Regex::is_match's
+   demand that the match spans the whole text - is true exactly for the paths in the language, for every pattern
+   and every path (no bound on sizes or nesting) *)
+Theorem C17_engine_decides_language : forall r s, regex_is_match r s = true <-> L r s.
+Proof. exact regex_is_match_language. Qed.
+Print Assumptions C17_engine_decides_language.
+
+Theorem C17_engine_equals_oracle : forall r s, regex_is_match r s = matches r s.
+Proof.
+  intros r s. destruct (regex_is_match r s) eqn:E, (matches r s) eqn:M; try reflexivity.
+  - apply regex_is_match_language, matches_spec in E. congruence.
+  - apply matches_spec, regex_is_match_language in M. congruence.
+Qed.
+Print Assumptions C17_engine_equals_oracle.
+
+(* the two earlier versions of the code, as refutations: without an anchor the first alternative that matches a
+   prefix decides ((a|ab) on "ab", the pinned tree); with "$" the position before a final newline is accepted
+   ((a|a\n) on "a\n", the first repair) - and "$" is right on every path without a newline *)
+Theorem C17_unanchored_refuted : exists r s, L r s /\ is_match_with k_none r s = false.
+Proof. exact unanchored_refuted. Qed.
+Theorem C17_dollar_refuted : exists r s, L r s /\ is_match_with k_dollar r s = false.
+Proof. exact dollar_refuted. Qed.
+Theorem C17_dollar_without_newline : forall r s, ~ In 10 s -> (is_match_with k_dollar r s = true <-> L r s).
+Proof. exact dollar_without_newline. Qed.
+Print Assumptions C17_dollar_without_newline.
 
 (* the syntax in force is the nearest preceding -regextype; emacs when none precedes *)
 Theorem C17_regextype_nearest_preceding : forall pre ty mid p post cur, no_rt mid ->
